@@ -6,7 +6,7 @@ static double complex *parse_cvec(int start, int count)
 {
     double complex *v = malloc(sizeof(double complex) * (count + 1));
     for (int i = 0; i < count; ++i)
-	v[i] = vh_parse_double(vh_tok[start + 2 * i]) + I * vh_parse_double(vh_tok[start + 2 * i + 1]);
+	v[i] = CMPLX(vh_parse_double(vh_tok[start + 2 * i]), vh_parse_double(vh_tok[start + 2 * i + 1]));
     return v;
 }
 
